@@ -18,6 +18,7 @@ import (
 	"runtime"
 	"strings"
 	"sync"
+	"sync/atomic"
 	"syscall"
 	"time"
 
@@ -543,6 +544,8 @@ func runScenarios(scns []Scn, o runOpts) map[int]*Res {
 	return out
 }
 
+var childLaunches int64
+
 // launchChild runs one child over scns. Returns finished results, the id in flight at abnormal exit (-1 if none), status and crash text.
 func launchChild(scns []Scn, o runOpts, label string) (got []*Res, inflight int, status, crash string) {
 	work := os.Getenv("VERIF_WORK")
@@ -577,6 +580,11 @@ func launchChild(scns []Scn, o runOpts, label string) (got []*Res, inflight int,
 	cmd.Stderr = ef
 	cmd.Stdout = nil
 	cmd.Env = append(os.Environ(), "GOTRACEBACK=all")
+	if atomic.AddInt64(&childLaunches, 1)%2 == 0 {
+		// every other child runs with an aggressive collector: pooled / cached state is dropped at
+		// different moments than with the default setting
+		cmd.Env = append(cmd.Env, "GOGC=1")
+	}
 	if o.Race {
 		cmd.Env = append(cmd.Env, "GORACE=halt_on_error=0 log_path="+filepath.Join(work, "race-"+label))
 	}
